@@ -11,7 +11,10 @@ One model step = one mutex-protected section (or one unlocked poller statement) 
                                       the poller runs `c.flush()` for the EPOLLOUT part
 * `evEnd`                           — what the poller does after the read part: `ResetPollerEvent`
                                       (ONESHOT) and `closeWithError(io.EOF)` for an error event
-* `close`                           — `closeWithError` (flip under the mutex + teardown)
+* `flipClosed`                      — the locked part of `closeWithError` (test-and-set `closed`, stop the timers)
+* `teardown`                        — `closeWithErrorWithoutLock`, run after the unlock by the flipper only; the
+                                      fatal-error branches of Write / Writev leave it pending too, those of
+                                      flush / Sendfile run it inside their critical section (`closeNow`)
 * `setWriteDeadline`, `timerExpire`, `timerFire` — SetWriteDeadline; the runtime starts the timer's
                                       goroutine; it takes the mutex in `closeWithError(errWriteTimeout)`
 
@@ -75,6 +78,9 @@ structure S where
   -- write deadline: `c.wTimer != nil` / the timer has expired and its goroutine has not yet taken the mutex
   wTimer : Bool := false
   firePending : Bool := false
+  -- close: the flag is flipped and the flipper has still to run closeWithErrorWithoutLock / it has closed the fd
+  tearPending : Bool := false
+  fdClosed : Bool := false
   -- kernel side
   reg : Bool := false         -- fd registered with epoll
   kOut : Bool := false        -- EPOLLOUT in the registered interest set
@@ -134,16 +140,23 @@ def cResetRead (g : Cfg) (s : S) : S :=
 def resetPollerEvent (g : Cfg) (s : S) : S :=
   if g.mode == .oneshot && !s.closed then (if s.wl.isEmpty then pResetRead g s else pModWrite g s) else s
 
-/-- closeWithErrorWithoutLock after `closed = true`: release the queue, notify, close the fd
-    (the fatal-error branches of Write / Writev / Sendfile / flush come here directly: they do not stop
-    the deadline timers) -/
-def closeNow (s : S) : S := { s with closed := true, wl := [], onClose := s.onClose + 1 }
+/-- `c.closed = true` under the mutex: the caller (only it) will run closeWithErrorWithoutLock. The
+    fatal-error branches of Write / Writev do exactly this before they unlock (no timer is stopped). -/
+def flip (s : S) : S := { s with closed := true, tearPending := true }
+
+/-- closeWithErrorWithoutLock, run by the flipper: release the queue, notify (table slot, OnClose), close the fd -/
+def teardown (s : S) : S :=
+  if s.tearPending then { s with wl := [], onClose := s.onClose + 1, fdClosed := true, tearPending := false } else s
+
+/-- flip and teardown in one critical section: the fatal-error branches of flush and Sendfile call
+    closeWithErrorWithoutLock while they still hold the mutex (deferred unlock) -/
+def closeNow (s : S) : S := { s with closed := true, wl := [], onClose := s.onClose + 1, fdClosed := true }
 
 /-- `if c.wTimer != nil { c.wTimer.Stop(); c.wTimer = nil }` -/
 def stopTimer (s : S) : S := { s with wTimer := false }
 
-/-- closeWithError on an open conn: flag, stop the timers, teardown -/
-def closeWE (s : S) : S := closeNow (stopTimer s)
+/-- the locked part of closeWithError on an open conn: flag, stop the timers (teardown follows the unlock) -/
+def flipWE (s : S) : S := flip (stopTimer s)
 
 def overflow (g : Cfg) (s : S) (n : Nat) : Bool := g.maxWB > 0 && s.left + n > g.maxWB
 
@@ -167,7 +180,7 @@ def writeInner (g : Cfg) (s : S) (b : Bytes) (k : KAns) : S × Ret :=
     backlog ⇒ arm EPOLLOUT -/
 def finishCall (g : Cfg) (r : S × Ret) : S × Ret :=
   if r.2.err = .none then ((if r.1.wl.isEmpty then stopTimer r.1 else cModWrite g r.1), r.2)
-  else (closeNow r.1, r.2)
+  else (flip r.1, r.2)
 
 def write (g : Cfg) (s : S) (b : Bytes) (k : KAns) : S × Ret :=
   if s.hung then (s, ⟨0, .none⟩)
@@ -314,9 +327,10 @@ def evEnd (g : Cfg) (s : S) : S :=
   -- after the connected callback: `c.onConnected = nil; c.resetRead()` under the mutex
   let s := if s.connEv then cResetRead g { s with connecting := false, connEv := false } else s
   let s := if s.rearm then resetPollerEvent g { s with rearm := false } else s
-  if s.evErr then (if s.closed then { s with evErr := false } else closeWE { s with evErr := false }) else s
+  if s.evErr then (if s.closed then { s with evErr := false } else flipWE { s with evErr := false }) else s
 
-def close (s : S) : S := if s.hung || s.closed then s else closeWE s
+/-- Close / CloseWithError: the locked part of closeWithError -/
+def flipClosed (s : S) : S := if s.hung || s.closed then s else flipWE s
 
 /-! ## write deadline -/
 
@@ -330,7 +344,7 @@ def timerExpire (s : S) : S := if s.wTimer then { s with firePending := true } e
 /-- the timer goroutine gets the mutex: closeWithError(errWriteTimeout) -/
 def timerFire (s : S) : S :=
   if !s.firePending || s.hung then s
-  else if s.closed then { s with firePending := false } else closeWE { s with firePending := false }
+  else if s.closed then { s with firePending := false } else flipWE { s with firePending := false }
 
 /-! ## transition system -/
 
@@ -342,7 +356,8 @@ inductive Op
   | registerDial
   | evTake (out inn err : Bool) (ks : List KAns)
   | evEnd
-  | close
+  | flipClosed
+  | teardown
   | setWriteDeadline (zero : Bool)
   | timerExpire
   | timerFire
@@ -355,7 +370,8 @@ def step (g : Cfg) (s : S) : Op → S
   | .registerDial => registerDial g s
   | .evTake o i e ks => evTake g s o i e ks
   | .evEnd => evEnd g s
-  | .close => close s
+  | .flipClosed => flipClosed s
+  | .teardown => teardown s
   | .setWriteDeadline z => setWriteDeadline s z
   | .timerExpire => timerExpire s
   | .timerFire => timerFire s
